@@ -15,20 +15,23 @@ _ruby_re = re.compile(RUBY_PATTERN)
 
 
 def parse_ruby(inline: "InlineParser", m: Match[str], state: "InlineState") -> int:
-    text = m.group(0)[1:-2]
-    items = text.split(")")
-    tokens = []
-    for item in items:
-        rb, rt = item.split("(")
-        tokens.append({"type": "ruby", "raw": rb, "attrs": {"rt": rt}})
+    # adjacent ruby groups are handled in a loop: a long run of them must not recurse once per group
+    while True:
+        text = m.group(0)[1:-2]
+        items = text.split(")")
+        tokens = []
+        for item in items:
+            rb, rt = item.split("(")
+            tokens.append({"type": "ruby", "raw": rb, "attrs": {"rt": rt}})
 
-    end_pos = m.end()
+        end_pos = m.end()
 
-    next_match = _ruby_re.match(state.src, end_pos)
-    if next_match:
+        next_match = _ruby_re.match(state.src, end_pos)
+        if not next_match:
+            break
         for tok in tokens:
             state.append_token(tok)
-        return parse_ruby(inline, next_match, state)
+        m = next_match
 
     # repeat link logic
     if end_pos < len(state.src):
